@@ -52,6 +52,10 @@ type e2eSpec struct {
 	// receiver but the receiver's answers are dropped (iptables OUTPUT rule on
 	// the host's UDP port, installed as soon as that socket exists)
 	OneWay   int      `json:"one_way,omitempty"`
+	// JoinWrap: command prefix under which `thru join` runs, e.g. strace with
+	// delay injection into some of its pwrite64 calls (a slow disk for single
+	// writes, which no hook can produce between two adjacent statements)
+	JoinWrap []string `json:"join_wrap,omitempty"`
 	BinDir   string   `json:"bindir"`
 	WorkDir  string   `json:"workdir"`
 }
@@ -163,6 +167,9 @@ func e2eChild(args []string) int {
 	defer jf.Close()
 	jargs := append([]string{"join", code, "--out", spec.Out, "--server-url", srv.URL, "--stun-server", "127.0.0.1:9"}, spec.JoinArgs...)
 	join := exec.Command(filepath.Join(spec.BinDir, "thru"), jargs...)
+	if len(spec.JoinWrap) > 0 {
+		join = exec.Command(spec.JoinWrap[0], append(append([]string{}, spec.JoinWrap[1:]...), append([]string{filepath.Join(spec.BinDir, "thru")}, jargs...)...)...)
+	}
 	join.Stdout, join.Stderr = jf, jf
 	join.Env = append(os.Environ(), spec.JoinEnv...)
 	stdin, _ := join.StdinPipe()
@@ -468,6 +475,7 @@ type e2eCase struct {
 	StallS   int      `json:"stall_s,omitempty"`
 	TimeoutS int      `json:"timeout_s,omitempty"`
 	OneWay   int      `json:"one_way,omitempty"`
+	JoinWrap []string `json:"join_wrap,omitempty"`
 }
 
 func genE2ECases(e *Env, n int, tag string, multiAddr bool) []e2eCase {
@@ -505,7 +513,7 @@ func runE2ECases(e *Env, cases []e2eCase, par int, judge func(c e2eCase, r e2eRe
 		if c.TimeoutS > 0 {
 			to = c.TimeoutS
 		}
-		r := runSession(e, e2eSpec{ID: c.ID, Src: src, Out: out, HostArgs: c.HostArgs, JoinArgs: c.JoinArgs, Stdin: "y\n", Addrs: c.Addrs, V6: c.V6, TimeoutS: to, StallS: c.StallS, OneWay: c.OneWay, HostEnv: c.HostEnv})
+		r := runSession(e, e2eSpec{ID: c.ID, Src: src, Out: out, HostArgs: c.HostArgs, JoinArgs: c.JoinArgs, Stdin: "y\n", Addrs: c.Addrs, V6: c.V6, TimeoutS: to, StallS: c.StallS, OneWay: c.OneWay, JoinWrap: c.JoinWrap, HostEnv: c.HostEnv})
 		judge(c, r, tree, out)
 	})
 }
@@ -526,6 +534,17 @@ func runC01E2E(e *Env) {
 		return
 	}
 	cases := genE2ECases(e, e.Pick(4, 40), "C01e2e", false)
+	// single slow writes at the receiver: every k-th pwrite64 of `thru join` is
+	// delayed by 40 ms (strace injection) while the other data streams go on, so
+	// that "counted / acknowledged" and "on disk" of one chunk lie far apart
+	if _, err := exec.LookPath("strace"); err == nil {
+		for i := 0; i < e.Pick(4, 16); i++ {
+			c := e2eCase{ID: fmt.Sprintf("C01e2e-slowwrite-%02d", i), Shape: []string{"boundary", "fewchunks", "nested", "manysmall"}[i%4], Seed: vk.Mix(e.Seed + uint64(i)*104729), Addrs: 1, CS: 4096,
+				HostArgs: []string{"--chunk-size", "4096", "--total-streams", "8", "--total-connections", fmt.Sprint(1 + i%2)},
+				JoinWrap: []string{"strace", "-f", "-o", "/dev/null", "-e", "trace=pwrite64", "-e", fmt.Sprintf("inject=pwrite64:delay_enter=40000:when=%d+%d", 1+i%3, 2+i%3)}}
+			cases = append(cases, c)
+		}
+	}
 	runE2ECases(e, cases, 8, func(c e2eCase, r e2eResult, tree vk.Tree, out string) {
 		e.R.Eval()
 		if r.SetupErr != "" {
@@ -538,18 +557,28 @@ func runC01E2E(e *Env) {
 			return
 		}
 		e.R.Count("double_success")
-		e.R.Distinct(c.Shape + "/" + strings.Join(c.HostArgs, " "))
+		if len(c.JoinWrap) > 0 {
+			e.R.Count("double_success_with_single_slow_writes")
+		}
+		e.R.Distinct(fmt.Sprintf("%s/%s/slowwrite=%v", c.Shape, strings.Join(c.HostArgs, " "), len(c.JoinWrap) > 0))
 		got, err := vk.Digest(out)
 		if err != nil {
 			e.R.Inconcl(c.ID + ": digest: " + err.Error())
 			return
 		}
 		if d := vk.DiffDigest(vk.ExpectedDigest(tree, "srcroot/"), got); len(d) > 0 {
-			e.R.Violate("digest-mismatch:binaries:"+c.Shape, fmt.Sprintf("`thru join` exited 0 and the host reported DONE but the output tree differs: %v", d), c, e2eDetail(r))
+			key := "digest-mismatch:binaries:" + c.Shape
+			if len(c.JoinWrap) > 0 {
+				key = "digest-mismatch:binaries:single-slow-writes"
+			}
+			e.R.Violate(key, fmt.Sprintf("`thru join` exited 0 and the host reported DONE but the output tree differs: %v", d), c, e2eDetail(r))
 		}
 		e.R.Sample(map[string]any{"case": c, "result": map[string]any{"join_exit": r.JoinExit, "host_status": r.HostStatus, "dur_ms": r.DurMs}, "files": tree.FileCount()})
 	})
 	e.R.Require(e.R.Counter("double_success") >= e.Pick(3, 30), fmt.Sprintf("only %d sessions succeeded on both sides", e.R.Counter("double_success")))
+	if _, err := exec.LookPath("strace"); err == nil {
+		e.R.Require(e.R.Counter("double_success_with_single_slow_writes") >= e.Pick(2, 8), "too few sessions with delayed single writes succeeded")
+	}
 }
 
 // ---- C03: healthy sessions complete (real binaries) ----------------------------
